@@ -61,5 +61,5 @@ def run(ctx, sm, facts):
     read_before_write(ctx, facts)
     definite_failures(ctx, facts, sm, 'C09.c', FILES)
     definite_failures(ctx, facts, sm, 'C09.c', ['py4hw/logic/arithmetic.py'], class_filter=lambda n: n in ('Counter', 'ModuloCounter', 'StepUpCounter'))
-    ctx.not_decided += ['input sequences longer than the bound / widths and depths above the grid', 'ClockDivider (frequency arithmetic) and AutoReset (reset length is not documented)']
+    ctx.not_decided += ['input sequences longer than the bound / widths and depths above the grid', 'ClockDivider with non-integer ratios and AutoReset (reset length is not documented)']
     ctx.assumptions += ['reference state machines transcribed from the docstrings in hv/specs.py', 'elaborator and summariser faithful; unsupported constructs abort an entry as not evaluable']
